@@ -9,7 +9,7 @@ COQ_TARGETS = ["Properties/C07", "Pins/C07"]
 THEOREMS = [("PdfV.Properties.C07", n) for n in
             ["C07_page", "C07_count", "C07_pages", "C07_inherit", "C07_depth_budget", "C07_keys", "C07_no_panic"]]
 ANCHORS = ["types.rs:PageTree", "types.rs:PagesNode", "types.rs:struct Page", "file.rs:File::num_pages"]
-MODES = ["page_query", "page_iter"]
+MODES = ["page_query", "page_iter", "page_spec"]
 TRUSTED_BASE = ["coqc 8.16.1 kernel (vm_compute for table lemmas and examples; no native_compute)",
                 "gen/extract_pagetree.py (regenerates depth budget, loop constants, /Type dispatch and dictionary keys of types.rs / file.rs)",
                 "Extraction + ExtrOcamlBasic, ocamlfind ocamlopt 4.13.1, coq/driver/main.ml",
@@ -73,6 +73,13 @@ def mk_query(data, root, cached, extra=(), judged=True, tags=(), nq=None):
     exp = ok(*PT.expected_query(root, nq)) if judged else None
     return Case("page_query", fields, expect=exp, mfields=mfields, tags=list(tags),
                 kind="structured" if judged else "malformed")
+
+
+def mk_spec(data, root, cached, tags=()):
+    """the same query answered by the Coq specification object (leaves / first_some) on the model side"""
+    c = mk_query(data, root, cached, tags=list(tags) + ["coq-spec"])
+    c.mode = "page_spec"
+    return c
 
 
 def mk_iter(data, root, cached, judged=True, tags=()):
@@ -208,6 +215,7 @@ def generate(rng, tier):
             measure(shape)
             yield mk_query(data, shape, cached=bool(v), tags=["fixed:" + name])
             yield mk_iter(data, shape, cached=not v, tags=["fixed:" + name])
+            yield mk_spec(data, shape, cached=bool(v), tags=["fixed:" + name])
     n = 300 if tier == "quick" else 30000
     for i in range(n):
         if i < 48:
@@ -221,6 +229,8 @@ def generate(rng, tier):
         yield mk_query(data, root, cached=bool(i % 2), tags=tags)
         if i % 4 == 0:
             yield mk_iter(data, root, cached=bool((i // 4) % 2), tags=tags)
+        if i % 3 == 0:
+            yield mk_spec(data, root, cached=not (i % 2), tags=tags)
     for c in out_of_domain(rng, tier):
         yield c
 
